@@ -68,7 +68,7 @@ func runS1Untyped(cfg hx.Config, meta *hx.Meta) error {
 	for _, job := range []struct {
 		file, what string
 		pool       []TypeList
-		rare       int // quick: the third call ranges over pool entries >= rare only when the first did not
+		rare       int // quick: the third call ranges over pool entries >= rare only when the first two did not
 	}{
 		{"s1-untyped.obs", "untyped constant types", up, 5},
 		{"s1-untyped-mixed.obs", "untyped constant types next to their default types (outside the guard)", MixedPool(), 99},
@@ -101,7 +101,7 @@ func runS1Untyped(cfg hx.Config, meta *hx.Meta) error {
 				return
 			}
 			for _, o := range opts {
-				if len(seq) == 2 && cfg.Tier != "thorough" && o.T >= job.rare && seq[0].T >= job.rare {
+				if len(seq) == 2 && cfg.Tier != "thorough" && o.T >= job.rare && (seq[0].T >= job.rare || seq[1].T >= job.rare) {
 					continue
 				}
 				seq = append(seq, o)
@@ -200,7 +200,7 @@ func extraPkgs(cfg hx.Config) []*e2ePkg {
 	r := hx.NewRand(cfg.Seed ^ 0xC115)
 	nUntyped, nOverride := 36, 30
 	if cfg.Tier == "thorough" {
-		nUntyped, nOverride = 400, 300
+		nUntyped, nOverride = 250, 150
 	}
 	var pkgs []*e2ePkg
 	idx := func(goType string) int { return e2eTypeIndex[goType] }
